@@ -267,6 +267,27 @@ CHECKS = {
              "for which the corpus ships no header are counted and not judged. unsigned is treated as the signed kind "
              "of the same size; typed data passed to a generic void * is accepted.",
     ),
+    "C06": dict(
+        level="model_checking",
+        design="DESIGN.md section 4 / C06",
+        technique="TLA+ spec Capsule (handles [addr, release code], heap with owner and allocator, constructor / owned / "
+                  "pool-owned / borrowed results, clone, handle copy, destructor wrapper, generic release) model-checked "
+                  "with TLC; every call sequence up to a bound executed by a C driver on real generated wrappers under "
+                  "AddressSanitizer and replayed by TLC (Trace_Capsule); Fortran driver under ASan/LSan for string, "
+                  "vector and allocatable temporaries",
+        text="TLC explores all interleavings of the nine wrapper calls over 2 (thorough 3) handles: no object released "
+             "twice, library-owned memory never freed, borrowed handles carry no release code, owned handles do, pool "
+             "memory goes back to the pool and everything else is deleted. Conformance: the real Shroud wraps a class "
+             "library with owner(caller), owner(library) and free_pattern annotations; a C interpreter driver built "
+             "with -fsanitize=address runs every sequence of <= 3 (thorough 4) calls a correct caller may make and then "
+             "releases both handles; the library logs constructor, destructor and pool events with object identities; "
+             "TLC replays each sequence: exactly the expected objects are released by each call, with the matching "
+             "deallocator (release codes are read from the generated release function), handles end up as specified, "
+             "no object is left alive. A Fortran driver over std::string results and arguments, std::vector in/out, "
+             "allocatable char* results and class handles must run clean under ASan and LeakSanitizer.",
+        note="Trusted: TLC, GCC 12 sanitizers, the driver's own correct-caller guards (sequences it cuts short are not "
+             "judged), rt/vt.c. Python capsule destructors are not exercised here (see C03).",
+    ),
 }
 
 ALL = ["C%02d" % i for i in range(1, 19)]
